@@ -83,6 +83,9 @@ inductive Op where
   /-- the rest of a search step after a forward: `loss = task(y) + strength * cost`, `backward()`,
   optimizer step -/
   | optStep
+  /-- an `export()` whose conversion raises after it has traced the seed in eval mode and run the
+  shape-propagation forward (unsupported layer, dtype error, …) -/
+  | exportRaises
   deriving DecidableEq, Repr, Inhabited
 
 /-- what a call returns, abstractly: everything the returned value can depend on -/
@@ -98,6 +101,8 @@ inductive Out where
   | costv (fn : Nat) (theta : Theta) (arch : Nat)
   /-- `AssertionError` (`cost` with a dictionary of specs, `get_cost(name)` with a single one) -/
   | err
+  /-- the conversion error of a failing `export()` -/
+  | raised
   /-- network outputs: sampled coefficients, parameters, buffers, mode, and the RNG draw used by
   dropout / Gumbel noise if any -/
   | outputs (theta : Theta) (arch pers : Nat) (strain bntrain droptrain : Bool) (draw : Option Nat)
@@ -106,7 +111,7 @@ inductive Out where
 
 def Op.isObserver : Op → Bool
   | .exportNet => true | .exportNoBn => true | .summary => true | .cost => true | .getCost => true
-  | .getCostB => true
+  | .getCostB => true | .exportRaises => true
   | .setSpec _ => false | .forward => false | .optStep => false
 
 /-- the coefficients a forward samples in mode `training` at RNG position `rng` -/
@@ -188,6 +193,8 @@ def step (c : Cfg) (s : State) : Op → State × Out
   | .setSpec k => ({ s with spec := k }, .unit)
   | .forward => forwardStep c s
   | .optStep => optStepStep c s
+  -- training status and sampled coefficients are restored in a `finally` (46df6ea): only the RNG moved
+  | .exportRaises => ({ s with rng := if exportDraws c then s.rng + 1 else s.rng }, .raised)
 
 def run (c : Cfg) (s : State) (ops : List Op) : State := ops.foldl (fun st op => (step c st op).1) s
 
@@ -210,9 +217,15 @@ def summaryStepPinned (c : Cfg) (s : State) : State × Out :=
                      rng := if sampleDraws c s.strain then s.rng + 1 else s.rng }, .summ s.arch)
   | _ => (s, .summ s.arch)
 
+/-- the tree between fe897bf and 46df6ea: the restore ran only when the conversion succeeded -/
+def stepNoFinally (c : Cfg) (s : State) : Op → State × Out
+  | .exportRaises => ((exportStepPinned c s).1, .raised)
+  | op => step c s op
+
 def stepPinned (c : Cfg) (s : State) : Op → State × Out
   | .exportNet => exportStepPinned c s
   | .exportNoBn => exportStepPinned c s
+  | .exportRaises => ((exportStepPinned c s).1, .raised)
   | .summary => summaryStepPinned c s
   | op => step c s op
 
